@@ -81,7 +81,11 @@ let pk7 f = Buffer.add_char buf '('; pbytes f.k_name; sp (); pbytes f.k_ext; sp 
 let lexeme_of = function
   | L [I 0; w] -> LKeyword (zs_of w) | L [I 1; t] -> LText (zs_of t)
   | L [I 2; t; c] -> LString (zs_of t, bool_of c) | L [I 3; c] -> LDelim (z_of c) | _ -> failwith "lexeme"
-let pdoutcome o = Buffer.add_char buf '('; pz o.d_status; sp (); pzs o.d_text; sp (); plist peffect o.d_effects; sp (); perr o.d_crash; Buffer.add_char buf ')'
+let plog = function
+  | LSide n -> Buffer.add_char buf '('; pz n; Buffer.add_char buf ')'
+  | LFile (side, name, ext, kind, ascii, stored, size, blocks, _) ->
+    Buffer.add_char buf '('; pz side; sp (); pzs name; sp (); pzs ext; sp (); pz kind; sp (); pbool ascii; sp (); pbool stored; sp (); pz size; sp (); pz blocks; Buffer.add_char buf ')'
+let pdoutcome o = Buffer.add_char buf '('; pz o.d_status; sp (); pzs o.d_text; sp (); plist peffect o.d_effects; sp (); perr o.d_crash; sp (); plist plog o.d_log; Buffer.add_char buf ')'
 let pdos f = Buffer.add_char buf '('; pbytes f.d_name; sp (); pbytes f.d_ext; sp (); pz f.d_kind; sp (); pz f.d_flag; sp (); pzs f.d_blocks; sp (); pbytes f.d_content; Buffer.add_char buf ')'
 let pside sd =
   let f = fat sd in
